@@ -19,6 +19,9 @@ MSpec == MInit /\ [][MNext]_<<vars, mon, viol>>
 
 C11 == viol = {}
 
+\* the last observation record influences the future only through the monitor and through "the behaviour has ended"
+MView == <<dvars, svars, mon, viol, evt.ev = "End">>
+
 \* every behaviour can be completed (no stuck decoder / buffer): a state without successor is Done
 Progress == (~ENABLED Next) => Done
 
